@@ -26,4 +26,4 @@ for c in $commits; do
 done
 echo "--- erbium commits done; merging verif branch"
 cd /verif || exit 1
-git pull --no-edit "$base/verif" "$name" 2>&1 | tail -3
+git pull --no-rebase --no-edit "$base/verif" "$name" 2>&1 | tail -3
